@@ -304,16 +304,38 @@ def run(ck):
     if rc != 0:
         ck.correspondence_broken("verifgen-run", ir[-2000:])
     terms, untrans = [], []
-    for name, gosrc, key, meta in fs:
-        f = fns.get("verifprog." + name)
-        if f is None:
-            untrans.append((name, "function missing in IR"))
-            continue
-        t, why = ll2v.translate(f[0], f[1])
-        if t is None:
-            untrans.append((name, why))
-            continue
-        terms.append((name, key, t, meta))
+
+    def collect(fns, ptr_bits, suffix):
+        for name, gosrc, key, meta in fs:
+            if ptr_bits == 32:
+                # int, uint and uintptr are 32 bits wide on the 32-bit target
+                kind, g, t, u, sym = meta
+                fix = lambda x: (x[0], 32, x[2]) if x and x[0] in ("int", "uint", "uintptr") else x
+                t2, u2 = fix(t), fix(u)
+                if kind in ("bin", "cmp"):
+                    key = "KBin %s (%s) (%s)" % (g, ity(t2), ity(t2))
+                elif kind == "un":
+                    key = "KUn %s (%s)" % (g, ity(t2))
+                elif kind == "shift":
+                    key = "KBin %s (%s) (%s)" % (g, ity(t2), ity(u2))
+                else:
+                    key = "KConv (%s) (%s)" % (ity(t2), ity(u2))
+                meta = (kind, g, t2, u2, sym)
+            f = fns.get("verifprog." + name)
+            if f is None:
+                untrans.append((name + suffix, "function missing in IR"))
+                continue
+            t, why = ll2v.translate(f[0], f[1])
+            if t is None:
+                untrans.append((name + suffix, why))
+                continue
+            terms.append((name + suffix, key, t, meta))
+    collect(fns, 64, "")
+    rc32, ir32 = vlib.sh([gen, "-goos", "linux", "-goarch", "arm", "."], cwd=d, env=L.env(), timeout=600)
+    if rc32 != 0:
+        ck.correspondence_broken("verifgen-run-arm", ir32[-1500:])
+    else:
+        collect(ll2v.split_functions(ir32), 32, "@arm")
     bad_fixed, bad_old = set(), set()
     if terms:
         text = "From LLGoV Require Import C02.Model.\nLocal Open Scope Z_scope.\nDefinition all_ir : list (key * func) := [\n" + \
@@ -363,7 +385,7 @@ def run(ck):
         for j, (name, key, t, meta) in enumerate(cand):
             m = re.search(r"W%d\s*=\s*\[(.*?)\]\s*:" % j, out, re.S)
             if m and m.group(1).strip():
-                model_witness[name] = re.sub(r"\s+", " ", m.group(1))[:120]
+                model_witness[name.split("@")[0]] = re.sub(r"\s+", " ", m.group(1))[:120]
 
     ck.phase("T2 done")
     # ---------- E: evaluator, llgo vs go ----------
